@@ -981,6 +981,9 @@ class HistogramBase(abc.ABC):
                 self._coerce_dtype(array.dtype)
             except ValueError as v:
                 raise TypeError(str(v)) from v
+            if scalar < 0 and not config.free_arithmetics:
+                # Also for empty bins (whose contents stay zero) and for the missed counts
+                raise ValueError("Cannot have negative frequencies.")
             self.frequencies = self.frequencies * scalar
             # Not `scalar**2`: the square of a numpy integer scalar wraps around in its own type
             self.errors2 = self.errors2 * scalar * scalar
@@ -1011,6 +1014,9 @@ class HistogramBase(abc.ABC):
         if isinstance(other, HistogramBase):
             raise TypeError("Division of two histograms is not supported.")
         elif np.isscalar(other):
+            if other < 0 and not config.free_arithmetics:
+                # Also for empty bins (whose contents stay zero) and for the missed counts
+                raise ValueError("Cannot have negative frequencies.")
             self._coerce_dtype(np.float64)
             self.frequencies = self.frequencies / other
             # Not `other**2`: the square of a numpy integer scalar wraps around in its own type
